@@ -116,7 +116,8 @@ def Symbol.id : Symbol → Str
   | .call n _ _ _ => n
 
 /-- Python `==` on symbols: attrs `eq` over every field but `token` and `location`
-(`eq=False` on both). Dict keys and set members are identified by this relation. -/
+(`eq=False` on both). Dict keys and set members are identified by this relation. A `Call`'s
+keyword arguments are a `frozendict`: compared as a mapping (`callArgsPyEq`). -/
 def Target.pyEq : Target → Target → Bool
   | .name n b _ i, .name n' b' _ i' => n == n' && b == b' && i == i'
   | .builtin n _ i, .builtin n' _ i' => n == n' && i == i'
@@ -130,9 +131,14 @@ def optPyEq : Option Target → Option Target → Bool
   | some a, some b => a.pyEq b
   | _, _ => false
 
+/-- `CallArguments.__eq__`: `args` is a tuple; `kwargs` is a `frozendict`, compared (and hashed) as
+a mapping — its insertion order is irrelevant. On key lists with unique keys that is "same entries
+up to order". -/
+def callArgsPyEq (a b : CallArgs Str) : Bool := a.args == b.args && a.kwargs.isPerm b.kwargs
+
 def Symbol.pyEq : Symbol → Symbol → Bool
   | .base a, .base b => a.pyEq b
-  | .call n a t _, .call n' a' t' _ => n == n' && a == a' && optPyEq t t'
+  | .call n a t _, .call n' a' t' _ => n == n' && callArgsPyEq a a' && optPyEq t t'
   | _, _ => false
 
 /-- `FunctionIr`: four *sets* of symbols (lists standing for sets, in iteration order). -/
@@ -345,6 +351,14 @@ with one key have one document), i.e. `sorted` cannot meet a tie between differe
 def sortKeyInjB (xs : List Symbol) : Bool :=
   xs.all fun a => xs.all fun b =>
     !(decide (irKey (unSymbol a) = irKey (unSymbol b))) || decide (unSymbol a = unSymbol b)
+
+/-- Decidable check used by the driver: the list stands for a Python set (no two members `==`). -/
+def isSetB : List Symbol → Bool
+  | [] => true
+  | a :: r => r.all (fun b => !(a.pyEq b)) && isSetB r
+
+def FunctionIr.isSetB (ir : FunctionIr) : Bool :=
+  Ser.isSetB ir.gets && Ser.isSetB ir.sets && Ser.isSetB ir.dels && Ser.isSetB ir.calls
 
 def unFnIr (ir : FunctionIr) : JVal :=
   .obj [(kGets, unSymbolSet ir.gets), (kSets, unSymbolSet ir.sets),
